@@ -351,7 +351,7 @@ func nativesCorpus() {
 				var keys []string
 				switch d := d.(type) {
 				case *ast.FuncDecl:
-					if d.Name.Name == "init" || d.Name.Name == "_" {
+					if (d.Name.Name == "init" && d.Recv == nil) || d.Name.Name == "_" {
 						continue
 					}
 					k := d.Name.Name
